@@ -73,11 +73,16 @@ def probes_for(released, accts):
     for (k, key, data, sig, i, j, st) in released:
         a = [x for x in accts if x.pk == key][0]
         f = data.split(",")
+        longkey = "k:" + a.pk.hex() + "00"          # an over-long spelling of the same key (resolved by its first 48 bytes)
         if k == "att":
             s, t = int(f[4]), int(f[6])
             out.append(conc.att_op(conc.key(a), s, t, 3))
             if s > 0:
                 out.append(conc.att_op(conc.name(a), s - 1, t + 5, 3))
+            # the same conflict through the batch endpoint and under the over-long spelling
+            out.append(conc.atts_op([conc.att_item(longkey, s, t, 3)]))
+            out.append(conc.att_op(longkey, s, t, 3))
         elif k == "prop":
             out.append(conc.prop_op(conc.key(a), int(f[1]), 3))
+            out.append(conc.prop_op(longkey, int(f[1]), 3))
     return out
